@@ -379,7 +379,11 @@ func NewReader(r io.Reader, b int) (*Reader, error) {
 func (r *Reader) Read() (f feat.Feature, err error) {
 	line, err := r.r.ReadBytes('\n')
 	if err != nil {
-		return
+		// A final line without a terminator is returned with io.EOF;
+		// parse it now, the next call reports the io.EOF.
+		if err != io.EOF || len(line) == 0 {
+			return
+		}
 	}
 	r.line++
 	line = bytes.TrimSpace(line)
